@@ -10,7 +10,9 @@ TRUSTED = TRUSTED_COMMON
 ASSUMPTIONS = ASSUME_COMMON + ['libm sin cos asin exp tanh ln pow atan2 enter as the model parameter L; closed-form theorems hold for every L']
 S3_LEGS = ['numeric magnitude/angle formulas (inverse-power field, potentials, spherical wave, refraction, aberration, ABCD, magnification, regression, perceptron): predicates against mpmath / bit-exact Python float replicas']
 
-def pos(r): return r.logu(1e-3, 1e3)
+def pos(r):
+    # special values (exactly 1, 2, 1/2, powers of ten) now and then: fast paths for unit / identity arguments hide there
+    return r.choice([1.0, 1.0, 2.0, 0.5, 10.0, 1e-3]) if r.chance(0.15) else r.logu(1e-3, 1e3)
 
 def generate(rng, tier):
     n = 200 if tier == 'quick' else 5000
@@ -80,6 +82,12 @@ def generate(rng, tier):
         gs = P.add('GNewAngle', P.f(pos(r)), canon_angle(P, r, False))
         abcd = [P.add('GScalar', P.f(r.uniform(0, 3))) for _ in range(4)]
         preds.append(('abcd_ref', [gs] + abcd + [P.add('TAbcd', gs, *abcd)]))
+        if r.chance(0.3):
+            # special matrices (identity, free space, thin lens, zero) on a ray that carries blade history
+            gh = P.add('GNewAngle', P.f(pos(r)), angle_rem(P, rem_class(r), r.choice([4, 5, 8, 9, 12, 1000, 2**20 + 1])))
+            m4 = r.choice([(1.0, 0.0, 0.0, 1.0), (1.0, 0.5, 0.0, 1.0), (1.0, 0.0, 0.25, 1.0), (0.0, 0.0, 0.0, 0.0), (1.0, 1.0, 1.0, 1.0), (2.0, 0.0, 0.0, 0.5)])
+            sp = [P.add('GScalar', P.f(x)) for x in m4]
+            preds.append(('abcd_ref', [gh] + sp + [P.add('TAbcd', gh, *sp)]))
         mg = P.add('GScalar', P.f(r.choice([1.0, 2.0, 0.5, r.uniform(0.2, 5)])))
         preds.append(('magnify_ref', [g, mg, P.add('TMagnify', g, mg)]))
         cases.append(Case(P, preds, 'helpers'))
